@@ -212,7 +212,7 @@ class Representation:
         if simple:
             return word
 
-        return re.split("[()*]", word)
+        return [gen for gen in re.split("[()*]", word) if gen]
 
     def __getitem__(self, word):
         return self.element(word)
